@@ -13,6 +13,11 @@ OPTS = [dict(binary_headers=a, binary_shape=b, binary_data=c, boxes_coordinates=
 
 def run_spec(ctx, rep, spec, model, only=None):
     path = ctx.newdir("c03_")
+    if spec.get("path_sub"):
+        # characters that mean something to glob / fnmatch / the shell in the plotfile path
+        import os
+        path = os.path.join(path, *spec["path_sub"]); os.makedirs(os.path.dirname(path))
+        rep.count("glob-characters-in-path")
     plotgen.materialize(spec, path)
     tree = tastelib.snapshot(path)
     if spec.get("level_symlink"):
@@ -239,6 +244,7 @@ def run(ctx, rep, model=True):
     path0 = ctx.newdir("c03_"); plotgen.materialize(spec0, path0)
     after_rejection(ctx, rep, spec0, tastelib.snapshot(path0), path0)
     directories_session(ctx, rep, ctx.rng.randrange(1 << 30))
+    huge_offsets(ctx, rep)
     n = 14 if ctx.quick else 80
     for i in range(n):
         spec = plotgen.random_spec(ctx.rng, nf=[2, 3, 1, 4][i % 4], data=["tags", "bits"][i % 2], B=2,
@@ -246,6 +252,7 @@ def run(ctx, rep, model=True):
                                    scale=[None, None, "centred", None, "far", "centred", "tiny"][i % 7])
         if i % 5 == 3: spec["path_form"] = "symlink"
         if i % 5 == 1: spec["level_symlink"] = True
+        if i % 5 == 2: spec["path_sub"] = [["case[3]", "run*x", "a?b"][(i // 5) % 3], "plt00010"]
         if i % 4 == 1 and len(spec["fields"]) == 3:
             # a repeated name next to the name its repetition would be given (avg, avg_2, avg -> avg, avg_2, avg_3)
             spec["fields"] = ["avg", "avg_2", "avg"]; rep.count("repeated-name-beside-its-numbered-form")
@@ -254,8 +261,54 @@ def run(ctx, rep, model=True):
             return
 
 
+def huge_offsets(ctx, rep):
+    """a binary file larger than 2 GiB: a box of 512 x 512 x 1024 cells (2 GiB of one field, written as a sparse hole: all zeros)
+    followed by a small box whose byte offset lies above 2**31; validated with the default options (which seek, and read the
+    FAB headers only)"""
+    import os
+    boxes = [[[0, 0, 0], [511, 511, 1023]], [[512, 0, 0], [513, 511, 1023]]]
+    spec = {"ndims": 3, "fields": ["f"], "time": 0.5, "geo_low": [0.0, 0.0, 0.0], "dx0": [0.125, 0.125, 0.125], "grid0": [514, 512, 1024],
+            "block": 2, "levels": [boxes], "layout": [[[0, 0], [0, 1]]], "data": {"mode": "zeros", "seed": 0}, "header_style": "amrex", "step": 1}
+    path = ctx.newdir("c03big_"); os.makedirs(os.path.join(path, "Level_0"))
+    with open(os.path.join(path, "Header"), "w") as h:
+        h.write(plotgen.header_text(spec))
+    offsets = []
+    with open(os.path.join(path, "Level_0", "Cell_D_00000"), "wb") as bf:
+        for lo, hi in boxes:
+            offsets.append(bf.tell())
+            bf.write(("FAB ((8, (64 11 52 0 1 12 0 1023)),(8, (8 7 6 5 4 3 2 1)))"
+                      f"(({','.join(map(str, lo))}) ({','.join(map(str, hi))}) (0,0,0)) 1\n").encode())
+            n = 1
+            for d in range(3):
+                n *= hi[d] - lo[d] + 1
+            bf.seek(n * 8, 1)
+        bf.truncate(bf.tell())
+    with open(os.path.join(path, "Level_0", "Cell_H"), "w") as ch:
+        ch.write("1\n1\n1\n0\n(2 0\n")
+        for lo, hi in boxes:
+            ch.write(f"(({','.join(map(str, lo))}) ({','.join(map(str, hi))}) (0,0,0))\n")
+        ch.write(")\n2\n")
+        for o in offsets:
+            ch.write(f"FabOnDisk: Cell_D_00000 {o}\n")
+        ch.write("\n2,1\n0.0000000000000000e+00,\n0.0000000000000000e+00,\n\n2,1\n0.0000000000000000e+00,\n0.0000000000000000e+00,\n\n")
+    rep.count("offsets>=2^31")
+    for nofail in (False, True):
+        mode = {"opts": OPTS[3], "limit": None, "nofail": nofail, "gap": True}
+        case = {"spec": spec, "mode": mode}
+        rep.case({"s": "huge", "m": mode}, nontrivial=True)
+        good, raised = tastelib.real_taste(path, nofail=nofail, **OPTS[3])
+        if raised is not None or not good:
+            rep.fail(f"a well-formed plotfile with a byte offset above 2**31 is reported bad (good={good}, raised={raised})", case,
+                     obs={"good": good, "raised": raised})
+        else:
+            rep.agree()
+    import shutil; shutil.rmtree(path, ignore_errors=True)
+
+
 def replay(ctx, rep, obj, model=True):
     c = obj["case"]
+    if c.get("mode", {}).get("gap"):
+        huge_offsets(ctx, rep); return
     if "directories_session" in c:
         directories_session(ctx, rep, c["directories_session"]); return
     if c.get("after_rejection"):
